@@ -21,4 +21,50 @@ PROPS = {
     },
 }
 
+CONCAT_ASSUME = COMMON_ASSUME + [
+    "nothing inside src/concat/mod.rs is assumed: the whole file is mirrored by BV/Model/Concat.lean (incl. every panic site as an explicit outcome); 'model = code' is checked by running both on the same recorded call sequences on every run (sampled, not proved)",
+    "'decodes to the concatenation' additionally relies on the payload encoder's catable promise (distance cache poisoned, static dictionary off, first two bytes stored): not modelled, judged on the real code by two independent decoders (brotli-decompressor, libbrotlidec 1.0.9)",
+]
+PROPS["C16"] = {
+    "lean_modules": ["BV.Props.C16"],
+    "stages": [{"name": "concat", "cmd": ["concat", "bytes"]}],
+    "level_text": "Proof: Lean 4 theorems over a complete line-by-line model of the concatenator: an invariant Inv holds initially and is preserved by new_brotli_file/stream/finish on ARBITRARY input bytes and capacities; under Inv no panic site of the model (about 60, one per Rust index/subtraction/assert/unwrap) is reachable; cursors stay within the buffers; header parsers are total; every call makes progress or returns a code the protocol can act on. Tied to the code by running model and implementation on identical call sequences (every 2-byte prefix x continuations, mutated/truncated/random members, all slicings down to 1 byte and zero-capacity calls).",
+    "level_note": "Trusted: Lean kernel + 3 standard axioms, the hand-written model BV/Model/Concat.lean (tied by correspondence, sampled), harness. Hypothesis `Started` (new_brotli_file was called before stream) is the documented API protocol.",
+    "technique": "Lean 4 invariant proof over executable model + model/implementation correspondence on recorded call sequences",
+    "rule": "scenarios = (window override, member byte strings, slicing schedule); members: every 2-byte prefix (step 5 in quick, all in thorough) x 4 continuations as 2nd and as 1st member, mutated/truncated/random-byte/valid members 1..6 per scenario; each scenario is run under the reference slicing, 1-byte feeding with zero-capacity calls, random slicings, save/restore and the C ABI; non-trivial = scenario whose reference run ended with success and was decoded",
+    "assumptions": CONCAT_ASSUME,
+    "trusted_base": ["model: BV/Model/Concat.lean mirrors src/concat/mod.rs completely (parse_window_size, detect_varlen_offset, flush_previous_stream, shift_and_check_new_stream_header, stream, finish, serialize/deserialize, new_with_window_size) and the cursor arithmetic of src/ffi/broccoli.rs"],
+}
+PROPS["C12"] = {
+    "lean_modules": ["BV.Props.C12"],
+    "stages": [{"name": "concat", "cmd": ["concat", "all"]}],
+    "level_text": "Proof (partial for the header phase): Lean 4 theorems over the complete concatenator model: serialize/deserialize round-trips every state (so save/restore is the identity and the C ABI wrappers equal the Rust calls with exact cursor arithmetic); the look-ahead taken for a new member is exactly 4 (5 for the 14-bit window form) bytes whatever else is available; calls without input/output room change nothing observable; from any state after a member's header has been accepted, emitted bytes, final code and state are independent of input slicing and of output capacities (induction over arbitrary schedules). The three header steps are covered by separate lemmas, not yet by one induction. Tied to the code by correspondence on identical call sequences and by comparing the real code across slicings.",
+    "level_note": "Trusted: Lean kernel + 3 standard axioms, hand-written model (correspondence, sampled), harness. `slicing_irrelevant_partial` covers Settled states; header-phase slicing independence is proved as header_phase_split / lookahead_slicing / flush_room_irrelevant and exercised differentially.",
+    "technique": "Lean 4 proof (round-trip + induction over schedules) over executable model + correspondence + cross-slicing comparison of the real code",
+    "rule": "same scenarios as C03/C16; each scenario's reference run is compared with runs under 1-byte feeding, zero-capacity calls, random slicings, save/restore after every call and the C ABI (state serialised on every call); non-trivial = reference run succeeded and was decoded",
+    "assumptions": CONCAT_ASSUME,
+    "trusted_base": ["model: BV/Model/Concat.lean (complete port of src/concat/mod.rs + broccoli.rs cursor arithmetic)"],
+}
+PROPS["C03"] = {
+    "lean_modules": ["BV.Props.C03"],
+    "stages": [{"name": "concat", "cmd": ["concat", "valid"]}],
+    "level_text": "Proof, partial: Lean 4 theorems over the complete concatenator model for the bit-level splice: parse_window_size inverts EncodeWindowBits for every window 10..30 and form; the end marker is stripped exactly at every bit alignment (incl. straddling a byte) and re-appended by finish; the realigned header equals tail bits ++ the member's first meta-block header bits after its window field ++ its remaining bytes; header forms must agree. 'Output decodes to the concatenation' composes this with the catable promise of the payload encoder, which is not modelled: that half is judged on the real code by two independent decoders on every run.",
+    "level_note": "Trusted: Lean kernel + 3 standard axioms, hand-written model (correspondence, sampled), harness, the two decoders. Partial: CatableBody (position independence of compressed meta-blocks) is an assumption about the encoder core; the whole-stream composition concat_bits is stated per step.",
+    "technique": "Lean 4 proof of the bit-level splice over executable model + correspondence + differential decode with two independent decoders",
+    "rule": "scenarios = 1..8 members from the real encoder (appendable/catable x quality x lgwin x magic x large-window) and from an independent stored-stream builder (every header form, first block metadata with 0..3 skip bytes / uncompressed with 4..6 nibbles), contents incl. empty and 1-3 bytes, optional window override, 1 in 8 mixing header forms; non-trivial = concatenator reported success and the output was decoded by both decoders and compared with the concatenated contents",
+    "assumptions": CONCAT_ASSUME,
+    "trusted_base": ["model: BV/Model/Concat.lean (complete port of src/concat/mod.rs)"],
+}
+
+PROPS["C07"] = {
+    "lean_modules": ["BV.Props.C07"],
+    "stages": [{"name": "pool", "cmd": ["pool"]}],
+    "level_text": "Proof (liveness stated over finite prefixes with finitely many spurious wake-ups): Lean 4 theorems over a labelled transition system of the worker pool (one transition per critical section; condition variable as an explicit wait set with notify_all and spurious wake-ups; Arc strong count of the shared input; FixedQueue modelled concretely incl. its swap-into-hole removal), for ANY number of workers >= 1, any contract-abiding program (any number of batches of <= MAX_THREADS jobs, any join order) and ANY interleaving: an inductive invariant; no unwrap()/assert can fire; each job runs exactly once; each join returns its own job's value; the input's strong count is 1 once everything is joined; no lost wake-up; deadlock freedom; a potential function bounding the number of thread steps (termination); drop stops every worker; reusability. MAX_THREADS is the generated constant. Tied to the code by running the REAL pool under a deterministic scheduler shim and replaying the recorded schedule in the model: per-step traces must be equal.",
+    "level_note": "Trusted: Lean kernel + 3 standard axioms; the LTS granularity (one atomic step per critical section) is justified by the mutex, and mutual exclusion / data-race freedom by safe Rust; OS scheduler fairness and the hardware memory model are outside the model. Under cfg(brotli_verif) worker_pool.rs takes Mutex/Condvar/spawn/JoinHandle from src/enc/verif_sched.rs (real threads, one runnable at a time); with the guard off the std primitives are used. The caller contract (<= 15 un-joined jobs at each spawn) is what CompressMulti guarantees; contract_is_needed shows the panic outside it.",
+    "technique": "Lean 4 invariant/refinement proof over an LTS + trace correspondence of the real pool under a deterministic scheduler shim",
+    "rule": "scenario = workers (1..4 mostly, up to 16) x submitter program (1..4 batches of 1..16 jobs, joins in random order interleaved with spawns, unwrap checks, drop) x schedule drawn online from one PRNG state (uniform / sticky / with 0-30% spurious wake-ups); plus random push/pop/remove sequences on FixedQueue; non-trivial = pool scenario with at least one job that ran to completion without violation; oracles on the real code: per-index execution counters, join values, strong count, no stuck state, no panic",
+    "assumptions": COMMON_ASSUME + ["weak fairness of the OS scheduler and finitely many spurious wake-ups (for eventual return)", "sequential consistency at lock granularity (guaranteed by the mutex)"],
+    "trusted_base": ["model: BV/Model/Pool.lean + BV/Model/FixedQueue.lean mirror src/enc/worker_pool.rs (do_work, spawn, join, Drop) and src/enc/fixed_queue.rs", "scheduler shim src/enc/verif_sched.rs (cfg brotli_verif)"],
+}
+
 NOT_YET = {}
